@@ -331,7 +331,14 @@ class GridSpec:
         pi = math.pi
         tsz = pi * R * (2 ** (1 - zoom))  # in meters
         x, y = -pi * R, pi * R  # top-left corner of tile 0,0
-        tile0 = geom.box(x, y - tsz, x + tsz, y, "epsg:3857")
-        shape = (npix, npix)
+        res = tsz / npix
 
-        return GridSpec.from_sample_tile(tile0, shape=shape, idx=(0, 0), flipy=True)
+        # origin is the bottom-left corner of tile 0,0; going via a sample tile
+        # would recover tile size as ``(x + tsz) - x`` and lose precision at high zoom
+        return GridSpec(
+            "epsg:3857",
+            (npix, npix),
+            resolution=resyx_(-res, res),
+            origin=xy_(x, y - tsz),
+            flipy=True,
+        )
